@@ -18,7 +18,9 @@ from vf.checks import common as K
 from vf.engine import evid, par
 from vf.ref import schema as RS
 
-DSTR = ["a", "é", "a b", "(", ")", "$", "X-", "\\27", "\\5c", "\\5C", "|", "x\\27y", "NAME", " "]
+DSTR = ["a", "é", "a b", "(", ")", "$", "X-", "\\27", "\\5c", "\\5C", "|", "x\\27y", "NAME", " ",
+        # escapes next to text that looks like another escape once decoded, and escapes next to each other
+        "C:\\5c27th", "\\5C5c", "\\275c", "\\5c\\27", "\\27\\5C\\5c27", "5c", "27"]
 CLS = {"oc": S.ObjectClassDescription, "at": S.AttributeTypeDescription, "dcr": S.DITContentRuleDescription}
 
 
